@@ -19,6 +19,9 @@ import ast
 from .common import *  # noqa: F401,F403
 
 IMG = "pyxel/util/image.py"
+BOUNDED = {
+    r'^cache\.transparent': 'histories of two loads',
+}      # unit-name / obligation-name patterns -> the family these obligations are proved for
 TRUSTED = ["np.intersect1d restricted to two integer ranges = range(max lo, min hi)", "np.array(range(a, b)) = the integers a..b-1",
            "byte-level decoding of npy/FITS/text/PNG files is numpy/astropy/PIL (outside contracts; bounded audit only)",
            "cache.fresh: a file's (mtime_ns, size) signature changes whenever its content is rewritten"]
